@@ -27,6 +27,15 @@ type Config struct {
 	T      float64 `json:"t"`
 	Period uint32  `json:"period_s"`
 	Cold   uint32  `json:"cold_factor"` // 0 => default (3)
+	// IntervalMs: StatIntervalInMs of the rule (0 = default 1000): the threshold is a count per interval
+	IntervalMs uint32 `json:"interval_ms,omitempty"`
+}
+
+func (c Config) interval() int64 {
+	if c.IntervalMs == 0 {
+		return 1000
+	}
+	return int64(c.IntervalMs)
 }
 
 func (c Config) String() string { b, _ := json.Marshal(c); return string(b) }
@@ -75,7 +84,7 @@ func (s *scen) Reset() {
 	s.fresh = true
 	s.idleSince = T0
 	s.rule = &flow.Rule{Resource: "a", TokenCalculateStrategy: flow.WarmUp, ControlBehavior: flow.Reject, Threshold: s.cfg.T,
-		WarmUpPeriodSec: s.cfg.Period, WarmUpColdFactor: s.cfg.Cold}
+		WarmUpPeriodSec: s.cfg.Period, WarmUpColdFactor: s.cfg.Cold, StatIntervalInMs: s.cfg.IntervalMs}
 	if _, err := flow.LoadRules([]*flow.Rule{s.rule}); err != nil {
 		panic(err)
 	}
@@ -89,13 +98,13 @@ func (s *scen) tick(ms int64) {
 	env.Clock.SetMs(s.now)
 }
 
-// windowSum: admitted tokens in the aligned 1 s window (two 500 ms buckets) ending at now
+// windowSum: admitted tokens in the aligned statistic window (500 ms buckets; 1 s by default) ending at now
 func (s *scen) windowSum() int64 {
 	cur := s.now - s.now%500
 	var n int64
 	for _, a := range s.adm {
 		st := a.t - a.t%500
-		if st >= cur-500 && st <= cur {
+		if st >= cur-s.cfg.interval()+500 && st <= cur {
 			n++
 		}
 	}
@@ -191,14 +200,14 @@ func (s *scen) Apply(i int) (string, string) {
 				if v != "" {
 					return "", v
 				}
-				if ok && s.now >= end-1000 {
+				if ok && s.now >= end-s.cfg.interval() {
 					last++
 				}
 			}
 			s.tick(100)
 		}
 		if s.cfg.T >= 1 && last < int(math.Floor(s.cfg.T)) {
-			return fmt.Sprint(last), fmt.Sprintf("after %d s of saturating demand only %d requests were admitted in the last second, threshold %v (warm-up period %d s)", dur/1000, last, s.cfg.T, s.cfg.Period)
+			return fmt.Sprint(last), fmt.Sprintf("after %d s of saturating demand only %d requests were admitted in the last statistic interval (%d ms), threshold %v (warm-up period %d s)", dur/1000, last, s.cfg.interval(), s.cfg.T, s.cfg.Period)
 		}
 		return fmt.Sprintf("sat=%d", last), ""
 	case opPatient:
@@ -253,8 +262,14 @@ func configs() []Config {
 	for _, t := range []float64{0, 0.5, 1, 2, 3, 3.5, 5, 5.5, 10, 11.5, 100} { // fractional thresholds: truncation and rounding differ
 		for _, p := range []uint32{1, 2, 5, 10} {
 			for _, cf := range []uint32{0, 2, 3, 5, 10} {
-				out = append(out, Config{t, p, cf})
+				out = append(out, Config{T: t, Period: p, Cold: cf})
 			}
+		}
+	}
+	// the threshold is a count per statistic interval: intervals other than one second
+	for _, iv := range []uint32{500, 2000} {
+		for _, p := range []uint32{2, 5} {
+			out = append(out, Config{T: 10, Period: p, Cold: 3, IntervalMs: iv})
 		}
 	}
 	return out
@@ -273,6 +288,9 @@ func signature(cfg Config, what string) string {
 	case strings.Contains(what, "saturating demand"):
 		if cfg.T < cfg.cold() {
 			return "C11:warmup:never-warm:threshold-below-cold-factor"
+		}
+		if cfg.IntervalMs > 1000 {
+			return "C11:warmup:never-warm:interval-above-1s"
 		}
 		return "C11:warmup:never-warm"
 	case strings.Contains(what, "starved"):
@@ -342,7 +360,7 @@ func warmUpThrottling(c *props.Ctx) {
 	for _, T := range []float64{10, 100} {
 		for _, period := range []uint32{1, 2, 5} {
 			for _, cold := range []uint32{0, 2, 3, 5} {
-				cfg := Config{T, period, cold}
+				cfg := Config{T: T, Period: period, Cold: cold}
 				env.ResetAll(env.DefaultGeometry, T0)
 				rule := &flow.Rule{Resource: "a", TokenCalculateStrategy: flow.WarmUp, ControlBehavior: flow.Throttling, Threshold: T,
 					WarmUpPeriodSec: period, WarmUpColdFactor: cold, MaxQueueingTimeMs: 0}
